@@ -141,7 +141,21 @@ func runC10(r *vk.Run) {
 		var expr MExpr = leaf
 		conservation := true
 		grp := vk.Subset(rng, c10Names)
-		switch rng.Intn(6) {
+		switch rng.Intn(8) {
+		case 6, 7:
+			// range-level by/without below a vector-level by/without (non-additive outer operators too)
+			leaf.Fn = vk.Pick(rng, []string{"max_over_time", "min_over_time", "last_over_time"})
+			leaf.Unwrap = "v"
+			leaf.Grouped, leaf.Without, leaf.Group = true, true, append([]string{"v"}, vk.Subset(rng, []string{"msg", "d"})...)
+			if rng.Chance(1, 3) {
+				leaf.Without, leaf.Group = false, append(vk.Subset(rng, c10Names), "job")
+			}
+			outer := &VecAgg{Op: vk.Pick(rng, []string{"count", "max", "min", "sum", "avg"}), Inner: leaf, Grouped: true, Without: rng.Bool(), Group: grp, GroupFirst: rng.Bool()}
+			if !outer.Without {
+				outer.Group = append(outer.Group, "job")
+			}
+			expr = outer
+			conservation = false
 		case 0:
 		case 1:
 			expr = &VecAgg{Op: "sum", Inner: leaf, Grouped: true, Group: append(grp, "job"), GroupFirst: rng.Bool()}
